@@ -487,7 +487,7 @@ class Midline(
         for midline extension. Note that this parameter is always the last one that
         is set after the spread and distribution parameters.
         """
-        last_param_idx = self.get_num_dims() - 1
+        last_param_idx = len(self.get_params(as_dict=True)) - 1
         before, last, after = utils.popat(args, idx=last_param_idx)
         midext_prob = kwargs.get("midext_prob", last)
         if midext_prob is not None:
